@@ -70,7 +70,7 @@ NextArgs ==
         /\ \E b \in BA : x' = [x EXCEPT !.a[Len(x.a)] = Append(@, b)]
 NextXf == x.k = "xf" /\ Len(x.items) < 2 /\ \E it \in ItemS : x' = [x EXCEPT !.items = Append(@, it)]
 NextAmt ==
-  /\ x.k = "amt" /\ x.v.k = "int" /\ Len(x.v.mag) < 3
+  /\ x.k = "amt" /\ x.v.k = "int" /\ Len(x.v.mag) < MaxBytes          \* in a codec run MaxBytes bounds the magnitude
   /\ \E b \in BA6, neg \in BOOLEAN : (x.v.mag # <<>> \/ b # 0) /\ x' = [x EXCEPT !.v = Amt(neg, Append(x.v.mag, b))]
 NextMeta ==
   /\ x.k = "meta" /\ x.n < 7
